@@ -576,6 +576,62 @@ fn run_small(acc: &mut Acc) {
             other => report(acc, "list-rejected", format!("[list group 1] {other:?}"), "list-group1", &fields),
         }
     }
+    // (round 7) every reply of <= 5 lines over {Artist, Album} x {x, a, ""} that starts with a group line, incl.
+    // identical neighbouring texts (a self-titled album, untagged songs) - reference: a group line sets the
+    // group, a value line yields (value, group)
+    {
+        let symbols: Vec<(&str, &str)> = vec![("Artist", "x"), ("Artist", "a"), ("Artist", ""), ("Album", "x"), ("Album", "a"), ("Album", "")];
+        let mut seqs: Vec<Vec<usize>> = vec![vec![0], vec![1], vec![2]];
+        let mut layer = seqs.clone();
+        for _ in 0..4 {
+            let mut next = Vec::new();
+            for s in &layer {
+                for k in 0..symbols.len() {
+                    let mut t = s.clone();
+                    t.push(k);
+                    next.push(t);
+                }
+            }
+            seqs.extend(next.iter().cloned());
+            layer = next;
+        }
+        for seq in &seqs {
+            let fields: Fields = seq.iter().map(|&k| f(symbols[k].0, symbols[k].1)).collect();
+            let mut cur = String::new();
+            let mut want: Vec<(String, [String; 1])> = Vec::new();
+            for &k in seq {
+                if symbols[k].0 == "Artist" {
+                    cur = symbols[k].1.to_string();
+                } else {
+                    want.push((symbols[k].1.to_string(), [cur.clone()]));
+                }
+            }
+            acc.replies += 1;
+            acc.checks += 1;
+            match catch(|| c::List::new(Tag::Album).group_by([Tag::Artist]).response(frame_of(&fields))) {
+                Ok(Ok(l)) => {
+                    let got: Vec<(String, [String; 1])> = l.grouped_values().map(|(v, g)| (v.to_string(), g.map(|s| s.to_string()))).collect();
+                    if got != want {
+                        report(acc, "list-group-value", format!("[list Album group Artist] decoded {got:?}, server sent {want:?}"), "list-group1", &fields);
+                    }
+                }
+                other => report(acc, "list-rejected", format!("[list Album group Artist] {other:?}"), "list-group1", &fields),
+            }
+            // the same texts as a plain list of albums (group lines left out)
+            let vals: Vec<&str> = seq.iter().filter(|&&k| symbols[k].0 == "Album").map(|&k| symbols[k].1).collect();
+            let fields: Fields = vals.iter().map(|v| f("Album", *v)).collect();
+            acc.checks += 1;
+            match catch(|| c::List::new(Tag::Album).response(frame_of(&fields))) {
+                Ok(Ok(l)) => {
+                    let got: Vec<String> = l.values().map(|s| s.to_string()).collect();
+                    if got != vals {
+                        report(acc, "list-value", format!("[list] decoded {got:?}, server sent {vals:?}"), "list", &fields);
+                    }
+                }
+                other => report(acc, "list-rejected", format!("[list] {other:?}"), "list", &fields),
+            }
+        }
+    }
     // grouped by two tags, values in the order passed to group_by; with tags the library has a
     // variant for and tags it has not (all of which are `Tag::Other`)
     let other = |n: &'static str| Tag::Other(n.into());
@@ -791,7 +847,7 @@ pub fn run(tier: Tier) -> i32 {
     let mut cov = Coverage::default();
     cov.evaluations = acc.replies;
     cov.distinct_nontrivial = acc.nontrivial.min(acc.replies);
-    cov.rule = "status: every subset of the 11 optional field groups (2048) in MPD's order, a spread (thorough: all) of them also reversed / every rotation / every adjacent transposition, every field at each boundary or enum value one at a time, every millisecond value 0.000..20.000 s (thorough: ..1000.000 s) for elapsed/duration, every out-of-domain spelling per field; stats, count (plain, grouped with 1..3 groups and both songs/playtime orders), list (plain, grouped by 1 and 2 tags in both group_by orders, repeated and changing keys), listplaylists, sticker get/list/find with '=' in values and every name of length <= 3 over 6 classes (incl. 2-, 3-, 4-byte characters) x every value of length <= 2 over 4 classes, channels, readmessages, tagtypes, update/rescan, replay_gain_status, addid; non-trivial = every reply except the reordered copies".to_string();
+    cov.rule = "status: every subset of the 11 optional field groups (2048) in MPD's order, a spread (thorough: all) of them also reversed / every rotation / every adjacent transposition, every field at each boundary or enum value one at a time, every millisecond value 0.000..20.000 s (thorough: ..1000.000 s) for elapsed/duration, every out-of-domain spelling per field; stats, count (plain, grouped with 1..3 groups and both songs/playtime orders), list (plain, grouped by 1 and 2 tags in both group_by orders, repeated and changing keys; every reply of <= 5 lines over 2 tags x 3 texts incl. identical neighbours), listplaylists, sticker get/list/find with '=' in values and every name of length <= 3 over 6 classes (incl. 2-, 3-, 4-byte characters) x every value of length <= 2 over 4 classes, channels, readmessages, tagtypes, update/rescan, replay_gain_status, addid; non-trivial = every reply except the reordered copies".to_string();
     cov.states = acc.replies;
     cov.transitions = acc.checks;
     cov.traces = acc.replies;
